@@ -178,3 +178,37 @@ Theorem C01_float_leaf_stable :
 Proof. split; [exact d2s_image_stable|exact d2s_s2d]. Qed.
 Print Assumptions C01_float_leaf_stable.
 
+
+(** ---- the normal form is a fixed point ---- *)
+From FA Require Import proofs.NormalForm.
+
+(** the value [out] the reader (no named-type reporting) returns for a well-typed wire value [a], written back under the same
+    schema, is elaborated to [a] again: same bytes, and reading them returns [out] again.  Side conditions, booleans decided
+    by computation: [closb0 n o e s a] (model/Conform.v: every union value, read back plain, re-resolves to the same branch
+    under the writer's search -- the exclusion is the same as for C09's closure: e.g. a bytearray written as "bytes" and read
+    back as bytes fits an earlier fixed; enum index = first occurrence of its symbol; map keys / field names distinct) and
+    [floats_stable a] (every binary32 leaf survives unpack-then-pack: true of everything pack produces). *)
+Theorem C01_normal_form_fixed : forall n o e s a out,
+  typedn n e s a -> closb0 n o e s a = true -> floats_stable a = true -> py_of ropts0 e s a = Some out ->
+  exists f0, forall f, (f0 <= f)%nat ->
+    elab f o e s out = WOk a /\ write f o e s out = WOk (wire a) /\
+    forall f' r, (n <= f')%nat -> read f' ropts0 e s (wire a ++ r) = Ok (out, r).
+Proof. exact normal_form_fixed. Qed.
+Print Assumptions C01_normal_form_fixed.
+
+(** read-after-write is idempotent: write v, read: out (the documented normalisation of v, C01_normalisation); write out:
+    the same bytes; read: out again.  No hypothesis on floats: what the writer wrote is stable (proofs/ElabFloats.v). *)
+Theorem C01_normalisation_idempotent : forall f o e s v a out,
+  elab f o e s v = WOk a -> data_ok e s v -> closb0 f o e s a = true -> py_of ropts0 e s a = Some out ->
+  write f o e s v = WOk (wire a) /\
+  exists f0, forall f', (f0 <= f')%nat ->
+    elab f' o e s out = WOk a /\ write f' o e s out = WOk (wire a) /\
+    forall f'' r, (f <= f'')%nat -> read f'' ropts0 e s (wire a ++ r) = Ok (out, r).
+Proof. exact normal_form_idempotent. Qed.
+Print Assumptions C01_normalisation_idempotent.
+
+(** non-vacuity: the normal form [nout] of [nv] (defaults filled in, hint stripped, tuple -> list, int -> float, bytearray ->
+    bytes) is written to the same wire value as [nv]; the side condition holds *)
+Example C01_idempotent_example :
+  closb0 9 nopts [] nrec na = true /\ floats_stable na = true /\ elab 9 nopts [] nrec nout = WOk na.
+Proof. split; [|split]; vm_compute; reflexivity. Qed.
